@@ -88,18 +88,22 @@ class Problem:
         :param dom_offset: the domain offset (set to 0 if not defined)
         :return: the index of the extra variable
         """
+        var_idx = len(self.dom_indices_lst)  # there may be fewer shared domains than variables
         insertion_idx = len(self.shr_domains_lst)
         if dom_index is None:
             dom_index = insertion_idx
         if dom_offset is None:
             dom_offset = 0
-        self.shr_domains_lst.append(
-            [shr_domain, shr_domain] if isinstance(shr_domain, int) else [shr_domain[0], shr_domain[1]]
-        )
+        if dom_index == insertion_idx:
+            # a variable with an explicit index is a view on an existing shared domain:
+            # appending its domain as well would create a shared domain that no variable uses
+            self.shr_domains_lst.append(
+                [shr_domain, shr_domain] if isinstance(shr_domain, int) else [shr_domain[0], shr_domain[1]]
+            )
         self.dom_indices_lst.append(dom_index)
         self.dom_offsets_lst.append(dom_offset)
-        self.shr_domain_nb = len(self.dom_indices_lst)
-        return insertion_idx
+        self.shr_domain_nb = len(self.shr_domains_lst)
+        return var_idx
 
     def add_variables(
         self,
@@ -112,24 +116,16 @@ class Problem:
         :param shr_domains_list: the shared domains of the variables
         :param dom_indices_list: the domain indices (automatically computed if not defined)
         :param dom_offsets_list: the domain offsets (set to 0 if not defined)
-        :return: the index where the extra variables have been added
+        :return: the index of the first added variable
         """
-        insertion_idx = len(self.shr_domains_lst)
-        n = len(shr_domains_list)
-        if dom_indices_list is None:
-            dom_indices_list = [insertion_idx + i for i in range(n)]
-        if dom_offsets_list is None:
-            dom_offsets_list = [0] * n
-        self.shr_domains_lst.extend(
-            [
-                [shr_domain, shr_domain] if isinstance(shr_domain, int) else [shr_domain[0], shr_domain[1]]
-                for shr_domain in shr_domains_list
-            ]
-        )
-        self.dom_indices_lst.extend(dom_indices_list)
-        self.dom_offsets_lst.extend(dom_offsets_list)
-        self.shr_domain_nb = len(self.dom_indices_lst)
-        return insertion_idx
+        var_idx = len(self.dom_indices_lst)
+        for i, shr_domain in enumerate(shr_domains_list):
+            self.add_variable(
+                shr_domain,
+                None if dom_indices_list is None else dom_indices_list[i],
+                None if dom_offsets_list is None else dom_offsets_list[i],
+            )
+        return var_idx
 
     def add_propagator(self, propagator: Tuple[List[int], int, List[int]]) -> None:
         """
